@@ -96,3 +96,9 @@ pub enum MethodCallbackFixture {
 pub fn or_insert_control(table: &mut std::collections::HashMap<&'static str, MethodCallbackFixture>, name: &'static str) {
     table.entry(name).or_insert(MethodCallbackFixture::Sync(0));
 }
+
+/// C16.REJ control: a future polled once and dropped.
+pub fn poll_once_control(rx: tokio::sync::oneshot::Receiver<u8>) -> Option<u8> {
+    use futures_util::FutureExt;
+    rx.now_or_never().and_then(|r| r.ok())
+}
